@@ -224,6 +224,60 @@ def build():
         lambda t: t.sub_code('R12', r"Box<dyn Decoder<Item = T, Error = Status> \+ Send \+ 'static>", 'DEC'),
         lambda t: t.sub_code('R12', r'Streaming<T>', 'Streaming<T, DEC: Decoder<Item = T, Error = Status>>')])
     u.raw(SPECS)
+    u.raw('''
+// ---- Streaming::new: wrapping the transport body (A-httpbody-07: BodyExt::map_frame / map_err adapt every frame / error with
+// the given function; tonic::body::Body::new boxes the adapted body - a fresh history).  The frame mapper tonic passes in is a
+// closure of Streaming::new: its own contract (every DATA frame keeps ALL its bytes, contiguous or not; trailers untouched) is an
+// obligation of this unit.
+pub enum RawFrame<D> { Data(D), Trailers(HeaderMap) }
+impl<D> RawFrame<D> {
+    #[verifier::external_body]
+    pub fn map_data<U, G: FnOnce(D) -> U>(self, f: G) -> (r: RawFrame<U>)
+        requires self matches RawFrame::Data(d) ==> f.requires((d,))
+        ensures self matches RawFrame::Data(d) ==> r matches RawFrame::Data(u) && f.ensures((d,), u), self matches RawFrame::Trailers(t) ==> r == RawFrame::<U>::Trailers(t),
+    { unimplemented!() }
+}
+pub struct MapFrame<B, F> { pub inner: B, pub f: F }
+pub struct MapErr<B, F> { pub inner: B, pub f: F }
+pub trait RawBody: Sized { type Error; }
+pub trait RawBodyExt: RawBody {
+    fn map_frame<F: Fn(RawFrame<BufData>) -> RawFrame<Bytes>>(self, f: F) -> (r: MapFrame<Self, F>)
+        requires forall|fr: RawFrame<BufData>| f.requires((fr,)),
+                 // what tonic owes the decoder: the mapper loses nothing
+                 forall|fr: RawFrame<BufData>, out: RawFrame<Bytes>| f.ensures((fr,), out) ==> lossless(fr, out),
+        ensures r.inner == self;
+}
+impl<B: RawBody> RawBodyExt for B { #[verifier::external_body] fn map_frame<F: Fn(RawFrame<BufData>) -> RawFrame<Bytes>>(self, f: F) -> (r: MapFrame<Self, F>) { unimplemented!() } }
+impl<B: RawBody, F> MapFrame<B, F> {
+    #[verifier::external_body]
+    pub fn map_err<G: Fn(B::Error) -> Status>(self, g: G) -> (r: MapErr<Self, G>) requires forall|e: B::Error| g.requires((e,)) ensures r.inner == self { unimplemented!() }
+}
+pub open spec fn lossless(fr: RawFrame<BufData>, out: RawFrame<Bytes>) -> bool {
+    match fr { RawFrame::Data(d) => out matches RawFrame::Data(o) && o@ == d@, RawFrame::Trailers(t) => out == RawFrame::<Bytes>::Trailers(t) }
+}
+impl Body {
+    #[verifier::external_body]
+    pub fn new<X>(x: X) -> (r: Body) ensures r.received@ == Seq::<u8>::empty(), !r.ended@, r.polls@ == 0, r.data_frames@ == 0, r.trailer_frames@ == 0, r.errors@ == 0 { unimplemented!() }
+}
+pub struct BoxError { pub id: Ghost<int> }
+impl Status {
+    // A-tonic-status-03: Status::map_error turns a body error into a status
+    #[verifier::external_body]
+    pub fn map_error(e: BoxError) -> (r: Status) { unimplemented!() }
+}
+''')
+    u.fn(D, 'new', within='impl<T> Streaming<T>', header='impl<T, DEC: Decoder<Item = T, Error = Status>> Streaming<T, DEC> {', close=True,
+         props=['C01', 'C02', 'C06', 'C07'],
+         sig_edits=[lambda t: t.sub_code('R12', r'fn new<B, D>\(', 'fn new<B: RawBody>('),
+                    lambda t: t.sub_code('R12', r'decoder: D,', 'decoder: DEC,'),
+                    lambda t: t.sub_code('R12', r'\bwhere\s+B: HttpBody[^{]*', 'where BoxError: From<B::Error>')],
+         body_edits=[lambda t: t.sub_code('R12', r'decoder: Box::new\(decoder\),', 'decoder: decoder,')],
+         closures={0: dict(params='frame: RawFrame<BufData>', ret='(o: RawFrame<Bytes>)', ensures=['lossless(frame, o)']),
+                   1: dict(params='mut buf: BufData', ret='(x: Bytes)', ensures=['x@ =~= buf@']),
+                   2: dict(params='err: B::Error', ret='(o: Status)')},
+         ensures=[Clause('C1_a_fresh_stream_with_the_given_settings_reads_a_header_first',
+                         '''r.decoder == decoder && r.inner.state is ReadHeader && r.inner.direction == direction && r.inner.encoding == encoding && r.inner.max_message_size == max_message_size
+                            && r.inner.trailers is None && r.inner.buf@ == Seq::<u8>::empty() && r.inner.body.received@ == Seq::<u8>::empty() && !r.inner.body.ended@''')])
 
     u.fn('tonic/src/codec/buffer.rs', 'new', within="impl<'a> DecodeBuf<'a>", header="impl<'a> DecodeBuf<'a> {",
          ensures=[('new', 'r.len == len && *r.buf == *old(buf) && *final(r.buf) == *final(buf)')])
